@@ -178,4 +178,28 @@ func corrC18(c *corrCtx) {
 			}
 		}
 	}
+	// PNG iCCP with every boundary length of the profile name (1..79 bytes are legal), Latin-1 names included
+	for _, nl := range []int{1, 2, 40, 77, 78, 79} {
+		for _, latin1 := range []bool{false, true} {
+			pd := randPngDesc(r, true, randProfilePayload(r, r.pick(300, 3000, 9000)))
+			name := make([]byte, nl)
+			for k := range name {
+				name[k] = byte(33 + r.intn(90))
+				if latin1 && k%2 == 0 {
+					name[k] = byte(161 + r.intn(95))
+				}
+			}
+			pd.iccName = string(name)
+			pd.body = nil
+			full, needed := pd.build()
+			prefix := append(append([]byte{}, full[:len(full)-24]...), 0x7f, 0xff, 0xff, 0xff, 'I', 'D', 'A', 'T')
+			for _, tail := range []int64{0, 4097, 100000, 1 << 20} {
+				for _, sc := range [][]int{nil, {7}} {
+					for _, ld := range []string{"png", "auto"} {
+						c18Case(c, fmt.Sprintf("png/name-len/%d", nl), ld, prefix, needed, tail, sc)
+					}
+				}
+			}
+		}
+	}
 }
